@@ -555,6 +555,13 @@ m('failed-fetch-offers-stale-frame-for-eviction', ['C13'], BPM, """	err := b.dis
 m('flush-all-dirty-skips-deallocated', ['C09', 'C01'], BPM, """			if pg.IsDirty() {
 				pageIDs = append(pageIDs, pageID)""", """			if pg.IsDirty() && !pg.IsDeallocated() {
 				pageIDs = append(pageIDs, pageID)""", ['C09-R5 [FlushAllDirtyPages:every-dirty-page-is-collected]'])
+m('cache-hit-does-not-tell-replacer', ['C13', 'C14'], BPM, """		pg.IncPinCount()
+		(*b.replacer).Pin(frameID)
+		b.mutex.Unlock()""", """		pg.IncPinCount()
+		b.mutex.Unlock()""", ['C13-R11 [FetchPage:cache-hit:replacer-told]'])
+m('unpin-offers-frame-while-pinned', ['C13', 'C14'], BPM, """		if pg.PinCount() <= 0 {
+			(*b.replacer).Unpin(frameID)
+		}""", """		(*b.replacer).Unpin(frameID)""", ['C13-R11 [UnpinPage:offered-only-when-unpinned]'])
 # drop the one that needs a helper that does not exist
 M = [x for x in M if x['id'] != 'insert-executor-unlocks-early']
 os.chdir(os.path.dirname(os.path.abspath(__file__)) + '/..')
